@@ -337,6 +337,11 @@ Definition x3_ref (x : qx) (a : latom) : bool :=
   Bool.eqb (x_rad x) (la_rad a) && (x_chg x =? la_chg a) &&
   negb (nonempty (x_h x) && negb (opt_mem (la_h a) (x_h x))) && tup (x_het x) (la_het a) && tup (x_nb x) (la_nb a).
 
+Lemma eqb_shift a b k : (a + k =? b + k) = (a =? b).
+Proof.
+  destruct (a =? b) eqn:E; [apply Z.eqb_eq in E; rewrite E; apply Z.eqb_refl | apply Z.eqb_neq in E; apply Z.eqb_neq; lia].
+Qed.
+
 Lemma add0 f : (forall x : Z, f x = x) -> forall x, f x = x + 0.
 Proof. intros H x. rewrite H. lia. Qed.
 
@@ -368,12 +373,14 @@ Proof.
   pose proof Hx as Hx'. unfold qx_ok in Hx'. repeat (apply andb_true_iff in Hx'; let H := fresh "X" in destruct Hx' as [Hx' H]).
   destruct (la_h a) as [h|] eqn:Eh; [|discriminate]. range_hyps.
   rewrite (sub_bit _ (la_chg a + 39)), bit_testbit by lia.
-  rewrite (sub_tf _ 30 _ _ h 0 4), (sub_tf _ 0 _ _ (la_het a) 0 14), (sub_tf _ 15 _ _ (la_nb a) 0 14);
-    try lia; auto; try (apply hfull_bits; lia); try (apply hetfull_bits; lia); try (apply nbfull_bits; lia).
+  rewrite (sub_tf (fun h => h + 30) 30 hfull (x_h x) h 0 4);
+    [|reflexivity | exact X2 | lia | lia | apply hfull_bits; lia].
+  rewrite (sub_tf (fun n => n) 0 hetfull (x_het x) (la_het a) 0 14);
+    [|intros; lia | exact X1 | lia | lia | apply hetfull_bits; lia].
+  rewrite (sub_tf (fun n => n + 15) 15 nbfull (x_nb x) (la_nb a) 0 14);
+    [|reflexivity | exact X4 | lia | lia | apply nbfull_bits; lia].
   unfold x3_ref, tup. rewrite Eh. cbn [opt_mem].
-  replace (x_chg x + 39 =? la_chg a + 39) with (x_chg x =? la_chg a)
-    by (destruct (x_chg x =? la_chg a) eqn:E; [apply Z.eqb_eq in E; subst; symmetry; apply Z.eqb_refl
-                                               | apply Z.eqb_neq in E; symmetry; apply Z.eqb_neq; lia]).
+  rewrite eqb_shift.
   destruct (Bool.eqb (x_rad x) (la_rad a)), (x_chg x =? la_chg a), (match qo with None => true | Some _ => _ end);
     cbn [andb]; reflexivity.
 Qed.
@@ -390,7 +397,8 @@ Proof.
   2:{ apply (tf_within _ 15 _ _ _ _ 0 14); try lia; auto. apply W; [lia|lia|vm_compute; reflexivity]. }
   pose proof Ha as Ha'. unfold atom_ok in Ha'. repeat (apply andb_true_iff in Ha'; let H := fresh "A" in destruct Ha' as [Ha' H]).
   destruct (la_h a) as [h|] eqn:Eh; [|discriminate]. range_hyps.
-  rewrite (sub_tf _ 15 _ _ (la_nb a) 0 14); try lia; auto; try (apply nbfull_bits; lia).
+  rewrite (sub_tf (fun n => n + 15) 15 nbfull nb (la_nb a) 0 14);
+    [|reflexivity | exact Hnb | lia | lia | apply nbfull_bits; lia].
   rewrite !sub_bit by lia. rewrite chgfull_bits, hfull_bits, hetfull_bits by lia.
   assert (S : sub 0xfffff00000000000 (aiso_f (off_of (la_iso a) (la_num a)) (la_rad a)) = true).
   { apply sub_iff. intros p Hp T. apply isofull_bits. apply (Wa p Hp T). }
@@ -724,3 +732,284 @@ Proof.
            rewrite rings_testbit by exact X. rewrite rings_testbit by exact A. split; apply existsb_exists; exists v;
            (split; [assumption | apply Z.eqb_refl]).
 Qed.
+
+(* ------------------------------------------------------------------------------------------------------------ *)
+(* 5. bond words: order [59,63], ring mark [57,58], atom bits [0,56]                                              *)
+
+Definition opos (o : Z) : Z := if o =? 1 then 59 else if o =? 2 then 60 else if o =? 3 then 61 else if o =? 4 then 62 else 63.
+Lemma order_bit_eq o : order_bit o = bit (opos o).
+Proof. unfold order_bit, opos. destruct (o =? 1), (o =? 2), (o =? 3), (o =? 4); reflexivity. Qed.
+Lemma qorder_eq l : qorder_bits l 0 = or_bits opos l 0.
+Proof.
+  unfold qorder_bits, or_bits. generalize 0. induction l as [|o l IH]; intros v; cbn [fold_left]; [reflexivity|].
+  rewrite order_bit_eq. apply IH.
+Qed.
+Lemma opos_range o : 59 <= opos o <= 63.
+Proof. unfold opos. destruct (o =? 1), (o =? 2), (o =? 3), (o =? 4); lia. Qed.
+
+Definition valid_order (o : Z) : bool := zmem o [1; 2; 3; 4; 8].
+Lemma opos_inj x o : valid_order x = true -> valid_order o = true -> (opos x =? opos o) = (x =? o).
+Proof.
+  unfold valid_order, zmem. cbn [existsb]. rewrite !orb_false_r. intros Hx Ho.
+  repeat (apply orb_true_iff in Hx; destruct Hx as [Hx|Hx]); apply Z.eqb_eq in Hx; subst;
+  repeat (apply orb_true_iff in Ho; destruct Ho as [Ho|Ho]); apply Z.eqb_eq in Ho; subst; reflexivity.
+Qed.
+
+Lemma sub_order l o : forallb valid_order l = true -> valid_order o = true ->
+  sub (qorder_bits l 0) (order_bit o) = zmem o l.
+Proof.
+  intros Hl Ho. rewrite qorder_eq, order_bit_eq. pose proof (opos_range o).
+  rewrite sub_bit by lia. rewrite or_bits_testbit by (intros x _; pose proof (opos_range x); lia).
+  unfold zmem. rewrite forallb_forall in Hl. apply eq_true_iff_eq. rewrite !existsb_exists.
+  split; intros [x [Hx E]]; exists x; (split; [exact Hx|]).
+  - rewrite opos_inj in E by auto. rewrite Z.eqb_sym. exact E.
+  - rewrite opos_inj by auto. rewrite Z.eqb_sym. exact E.
+Qed.
+
+Definition ring_bit (r : bool) : Z := if r then 0x0400000000000000 else 0x0200000000000000.
+Lemma sub_ring q r : sub (qring_bits q) (ring_bit r) = match q with None => true | Some x => Bool.eqb x r end.
+Proof. destruct q as [[|]|], r; vm_compute; reflexivity. Qed.
+Lemma ring_within q r : within 57 58 (qring_bits q) /\ within 57 58 (ring_bit r).
+Proof. split; [destruct q as [[|]|] | destruct r]; apply W; try lia; vm_compute; reflexivity. Qed.
+
+Lemma qbond_match_eq qb lb :
+  qbond_match qb lb = zmem (lb_ord lb) (qb_ord qb) && match qb_ring qb with None => true | Some x => Bool.eqb x (lb_ring lb) end.
+Proof.
+  unfold qbond_match. destruct (qb_ring qb) as [r|]; [|rewrite andb_true_r; reflexivity].
+  destruct (Bool.eqb r (lb_ring lb)); cbn [negb]; [rewrite andb_true_r | rewrite andb_false_r]; reflexivity.
+Qed.
+
+Lemma sub_w1_bond m1 qb lb pos :
+  within 0 56 m1 -> 0 <= pos <= 56 -> bond_ok lb = true -> qbond_ok qb = true ->
+  sub (Z.lor (Z.lor m1 (qorder_bits (qb_ord qb) 0)) (qring_bits (qb_ring qb))) (enc_bond lb (bit pos)) =
+  Z.testbit m1 pos && qbond_match qb lb.
+Proof.
+  intros Wm Hp Hb Hq. unfold enc_bond. fold (ring_bit (lb_ring lb)).
+  destruct (ring_within (qb_ring qb) (lb_ring lb)) as [Wr1 Wr2].
+  assert (Wo1 : within 59 63 (qorder_bits (qb_ord qb) 0)).
+  { rewrite qorder_eq. apply or_bits_within. intros x _. pose proof (opos_range x). lia. }
+  assert (Wo2 : within 59 63 (order_bit (lb_ord lb))).
+  { rewrite order_bit_eq. pose proof (opos_range (lb_ord lb)). apply within_bit; lia. }
+  assert (Wb : within 0 56 (bit pos)) by (apply within_bit; lia).
+  rewrite (sub_split 57 58), (sub_split 59 63); try assumption;
+    try (repeat apply outside_lor; (eapply within_outside; [eassumption | lia])).
+  rewrite sub_bit by lia. rewrite sub_order by assumption. rewrite sub_ring, qbond_match_eq.
+  rewrite andb_assoc. reflexivity.
+Qed.
+
+(* ------------------------------------------------------------------------------------------------------------ *)
+(* 6. the comparison methods in closed form, and the correctness theorems                                         *)
+
+Definition iso_ref (iso ia : option Z) : bool := negb (iso_truthy iso && negb (option_eqb Z.eqb iso ia)).
+
+Definition ref_match (q : qatom) (a : latom) : bool :=
+  match q with
+  | QElem n iso x => (n =? la_num a) && iso_ref iso (la_iso a) && x3_ref x a && tup (x_hyb x) (la_hyb a) && ring_ref x a
+  | QAny x => x3_ref x a && tup (x_hyb x) (la_hyb a) && ring_ref x a
+  | QList nums x => zmem (la_num a) nums && x3_ref x a && tup (x_hyb x) (la_hyb a) && ring_ref x a
+  | QMetal nb hyb => negb (non_metal (la_num a)) && tup nb (la_nb a) && tup hyb (la_hyb a)
+  end.
+
+Definition q_set (q : qatom) : bool :=
+  match q with QElem _ _ x | QAny x | QList _ x => x_rings_set x | QMetal _ _ => false end.
+
+Lemma match_tail_ref x a : x_rings_set x = false ->
+  match_tail x a = Ok (tup (x_nb x) (la_nb a) && tup (x_hyb x) (la_hyb a) && ring_ref x a &&
+                      negb (nonempty (x_h x) && negb (opt_mem (la_h a) (x_h x))) && tup (x_het x) (la_het a)).
+Proof.
+  intros Hs. unfold match_tail, ring_step, ring_ref, tup. rewrite Hs.
+  destruct (nonempty (x_nb x) && negb (zmem (la_nb a) (x_nb x))); cbn [negb andb]; [reflexivity|].
+  destruct (nonempty (x_hyb x) && negb (zmem (la_hyb a) (x_hyb x))); cbn [negb andb]; [reflexivity|].
+  destruct (x_rings x) as [|r0 r].
+  - destruct (nonempty (x_h x) && negb (opt_mem (la_h a) (x_h x))); cbn [negb andb]; [reflexivity|].
+    destruct (nonempty (x_het x) && negb (zmem (la_het a) (x_het x))); reflexivity.
+  - destruct (negb (r0 =? 0)).
+    + destruct (disjoint_z (la_rings a) (r0 :: r)); cbn [negb andb]; [reflexivity|].
+      destruct (nonempty (x_h x) && negb (opt_mem (la_h a) (x_h x))); cbn [negb andb]; [reflexivity|].
+      destruct (nonempty (x_het x) && negb (zmem (la_het a) (x_het x))); reflexivity.
+    + destruct (nonempty (la_rings a)); cbn [negb andb]; [reflexivity|].
+      destruct (nonempty (x_h x) && negb (opt_mem (la_h a) (x_h x))); cbn [negb andb]; [reflexivity|].
+      destruct (nonempty (x_het x) && negb (zmem (la_het a) (x_het x))); reflexivity.
+Qed.
+
+Lemma match_atom_ref q a : q_set q = false -> match_atom q a = Ok (ref_match q a).
+Proof.
+  intros Hs. destruct q as [n iso x|x|nums x|nb hyb]; cbn [q_set] in Hs; unfold match_atom, ref_match.
+  - unfold match_q. rewrite (match_tail_ref x a Hs). unfold x3_ref, iso_ref.
+    destruct (n =? la_num a); cbn [negb andb]; [|reflexivity].
+    destruct (x_chg x =? la_chg a); cbn [negb andb]; [|rewrite !andb_false_r; reflexivity].
+    destruct (Bool.eqb (x_rad x) (la_rad a)); cbn [negb andb]; [|rewrite !andb_false_r; reflexivity].
+    destruct (iso_truthy iso && negb (option_eqb Z.eqb iso (la_iso a))); cbn [negb andb]; [reflexivity|].
+    f_equal. destruct (tup (x_nb x) (la_nb a)), (tup (x_hyb x) (la_hyb a)), (ring_ref x a), (tup (x_het x) (la_het a)),
+      (negb (nonempty (x_h x) && negb (opt_mem (la_h a) (x_h x)))); reflexivity.
+  - unfold match_any. rewrite (match_tail_ref x a Hs). unfold x3_ref.
+    destruct (x_chg x =? la_chg a); cbn [negb andb]; [|rewrite !andb_false_r; reflexivity].
+    destruct (Bool.eqb (x_rad x) (la_rad a)); cbn [negb andb]; [|reflexivity].
+    f_equal. destruct (tup (x_nb x) (la_nb a)), (tup (x_hyb x) (la_hyb a)), (ring_ref x a), (tup (x_het x) (la_het a)),
+      (negb (nonempty (x_h x) && negb (opt_mem (la_h a) (x_h x)))); reflexivity.
+  - unfold match_list. rewrite (match_tail_ref x a Hs). unfold x3_ref.
+    destruct (zmem (la_num a) nums); cbn [negb andb]; [|reflexivity].
+    destruct (x_chg x =? la_chg a); cbn [negb andb]; [|rewrite !andb_false_r; reflexivity].
+    destruct (Bool.eqb (x_rad x) (la_rad a)); cbn [negb andb]; [|reflexivity].
+    f_equal. destruct (tup (x_nb x) (la_nb a)), (tup (x_hyb x) (la_hyb a)), (ring_ref x a), (tup (x_het x) (la_het a)),
+      (negb (nonempty (x_h x) && negb (opt_mem (la_h a) (x_h x)))); reflexivity.
+  - unfold match_metal, tup. destruct (non_metal (la_num a)); cbn [negb andb]; [reflexivity|].
+    destruct (nonempty nb && negb (zmem (la_nb a) nb)); cbn [negb andb]; [reflexivity|].
+    destruct (nonempty hyb && negb (zmem (la_hyb a) hyb)); reflexivity.
+Qed.
+
+Lemma iso_cond_eq iso ia n :
+  match off_of iso n with None => true | Some _ => option_eqb Z.eqb (off_of iso n) (off_of ia n) end = iso_ref iso ia.
+Proof.
+  unfold off_of, iso_ref, iso_truthy. destruct iso as [i|]; [|reflexivity].
+  destruct (i =? 0) eqn:Ei; cbn [negb andb]; [reflexivity|].
+  destruct ia as [j|]; [|reflexivity].
+  destruct (j =? 0) eqn:Ej; cbn [negb option_eqb].
+  - apply Z.eqb_eq in Ej. subst j. rewrite Ei. reflexivity.
+  - unfold Z.sub. rewrite eqb_shift, negb_involutive. reflexivity.
+Qed.
+
+Lemma q_w4 q b : w4 (enc_qatom q b) = match q with QElem _ _ x | QAny x | QList _ x => enc_x4 x | QMetal _ _ => allones end.
+Proof.
+  destruct q as [num iso x|x|nums x|nb hyb]; unfold enc_qatom.
+  - destruct (elem_masks num). reflexivity.
+  - reflexivity.
+  - destruct (fold_left _ nums (0, 0)). reflexivity.
+  - reflexivity.
+Qed.
+
+Definition q_x (q : qatom) : qx :=
+  match q with QElem _ _ x | QAny x | QList _ x => x | QMetal nb hyb => mkQX 0 false nb hyb [] [] [] false end.
+
+(* words II, III, IV together (they are tested in the same way for the first and for the following atoms) *)
+Lemma words_234 q b a : query_ok q = true -> atom_ok a = true -> elem_hyp q (la_num a) ->
+  Z.testbit (fst (qm q)) (pos1 (la_num a)) &&
+  (sub (w2 (enc_qatom q b)) (w2 (enc_atom a)) && sub (w3 (enc_qatom q b)) (w3 (enc_atom a)) &&
+   meet (w4 (enc_qatom q b)) (w4 (enc_atom a))) = ref_match q a.
+Proof.
+  intros Hq Ha He.
+  assert (Hhyb : all_in 1 4 (q_hyb q) = true).
+  { destruct q; cbn [query_ok q_hyb] in *; unfold qx_ok in *;
+    repeat (apply andb_true_iff in Hq; let H := fresh "Q" in destruct Hq as [Hq H]); assumption. }
+  rewrite (sub_w2 q b a He Hhyb Ha), enc_q_w3, enc_atom_w3, q_w4.
+  rewrite (andb_assoc (Z.testbit _ _)), (andb_assoc (Z.testbit _ _)), (andb_assoc (Z.testbit _ _)).
+  fold (elem_test (qm q) (la_num a)). rewrite (elem_test_q q _ He).
+  destruct q as [n iso x|x|nums x|nb hyb]; cbn [query_ok] in Hq; unfold elem_ref, q3_of, q_hyb, ref_match.
+  - apply andb_true_iff in Hq. destruct Hq as [Hq Hx]. apply andb_true_iff in Hq. destruct Hq as [_ Hi].
+    rewrite (sub_x3 _ x a (off_of_In _ _ Hi) Hx Ha), (meet_w4 x a Hx Ha).
+    destruct (n =? la_num a) eqn:En; cbn [andb]; [|reflexivity].
+    apply Z.eqb_eq in En. subst n. rewrite iso_cond_eq.
+    destruct (iso_ref iso (la_iso a)), (x3_ref x a), (tup (x_hyb x) (la_hyb a)), (ring_ref x a); reflexivity.
+  - rewrite (sub_x3 None x a ltac:(apply opts_In; exact I) Hq Ha), (meet_w4 x a Hq Ha). cbn [andb].
+    destruct (x3_ref x a), (tup (x_hyb x) (la_hyb a)), (ring_ref x a); reflexivity.
+  - apply andb_true_iff in Hq. destruct Hq as [_ Hx].
+    rewrite (sub_x3 None x a ltac:(apply opts_In; exact I) Hx Ha), (meet_w4 x a Hx Ha). cbn [andb].
+    destruct (zmem (la_num a) nums), (x3_ref x a), (tup (x_hyb x) (la_hyb a)), (ring_ref x a); reflexivity.
+  - apply andb_true_iff in Hq. destruct Hq as [Hnb Hh].
+    rewrite (sub_metal3 nb a Hnb Ha).
+    change allones with (enc_x4 (mkQX 0 false [] [] [] [] [] false)).
+    rewrite (meet_w4 _ a ltac:(reflexivity) Ha). unfold ring_ref. cbn [x_rings].
+    destruct (negb (non_metal (la_num a))), (tup nb (la_nb a)), (tup hyb (la_hyb a)); reflexivity.
+Qed.
+
+Lemma query_ok_not_set q : query_ok q = true -> q_set q = false.
+Proof.
+  destruct q as [n iso x|x|nums x|nb hyb]; cbn [query_ok q_set]; intros H; try reflexivity; unfold qx_ok in H;
+  repeat (apply andb_true_iff in H; let K := fresh "K" in destruct H as [H K]); apply negb_true_iff; assumption.
+Qed.
+
+(* THE FIRST ATOM OF A COMPONENT: the four mask tests decide QueryElement/AnyElement/ListElement/AnyMetal.__eq__ *)
+Theorem mask_match_first_correct q a :
+  query_ok q = true -> atom_ok a = true -> elem_hyp q (la_num a) ->
+  match_atom q a = Ok (mask_match_first (enc_qatom q None) (enc_atom a)).
+Proof.
+  intros Hq Ha He. rewrite (match_atom_ref q a (query_ok_not_set q Hq)). f_equal.
+  rewrite <- (words_234 q None a Hq Ha He). unfold mask_match_first.
+  fold (meet (w1 (enc_qatom q None)) (w1 (enc_atom a))) (sub (w2 (enc_qatom q None)) (w2 (enc_atom a)))
+       (sub (w3 (enc_qatom q None)) (w3 (enc_atom a))) (meet (w4 (enc_qatom q None)) (w4 (enc_atom a))).
+  rewrite enc_q_w1, enc_atom_w1. destruct He as [Hn _]. destruct (supports (la_num a)) as [_ [_ [_ Hp]]]; [lia|].
+  rewrite meet_bit by lia. rewrite !andb_assoc. reflexivity.
+Qed.
+
+(* EVERY FOLLOWING ATOM: mask1 & bond == bond tests the bond to the `back` atom and the element at once *)
+Theorem mask_match_next_correct q qb a lb :
+  query_ok q = true -> atom_ok a = true -> elem_hyp q (la_num a) -> qbond_ok qb = true -> bond_ok lb = true ->
+  match_atom q a = Ok (ref_match q a) /\
+  mask_match_next (enc_qatom q (Some qb)) (enc_bond lb (w1 (enc_atom a))) (enc_atom a) = qbond_match qb lb && ref_match q a.
+Proof.
+  intros Hq Ha He Hqb Hlb. split; [apply match_atom_ref, query_ok_not_set, Hq|].
+  rewrite <- (words_234 q (Some qb) a Hq Ha He). unfold mask_match_next.
+  fold (sub (w1 (enc_qatom q (Some qb))) (enc_bond lb (w1 (enc_atom a)))) (sub (w2 (enc_qatom q (Some qb))) (w2 (enc_atom a)))
+       (sub (w3 (enc_qatom q (Some qb))) (w3 (enc_atom a))) (meet (w4 (enc_qatom q (Some qb))) (w4 (enc_atom a))).
+  rewrite enc_q_w1, enc_atom_w1. destruct (qm_within q _ He) as [W1 _]. destruct He as [Hn _].
+  destruct (supports (la_num a)) as [_ [_ [_ Hp]]]; [lia|].
+  rewrite (sub_w1_bond _ qb lb _ W1 Hp Hlb Hqb).
+  destruct (Z.testbit (fst (qm q)) (pos1 (la_num a))), (qbond_match qb lb); cbn [andb]; reflexivity.
+Qed.
+
+(* RING CLOSURES: `if not c_bond or j_bond.bond & c_bond != c_bond: break` decides QueryBond.__eq__ *)
+Theorem closure_ok_correct qb lb an :
+  1 <= an <= 118 -> qbond_ok qb = true -> bond_ok lb = true ->
+  closure_ok (enc_closure qb) (enc_bond lb (bit (pos1 an))) = qbond_match qb lb.
+Proof.
+  intros Hn Hqb Hlb. unfold closure_ok, enc_closure. rewrite qorder_acc.
+  destruct (supports an Hn) as [_ [_ [_ Hp]]].
+  fold (sub (Z.lor (Z.lor 0x01ffffffffffffff (qorder_bits (qb_ord qb) 0)) (qring_bits (qb_ring qb))) (enc_bond lb (bit (pos1 an)))).
+  rewrite sub_w1_bond; try assumption.
+  2:{ apply W; try lia. vm_compute. reflexivity. }
+  assert (T : Z.testbit 0x01ffffffffffffff (pos1 an) = true) by (apply (testbit_full 0 56); [vm_compute; reflexivity | vm_compute; reflexivity | lia]).
+  rewrite T. cbn [andb].
+  assert (NZ : (enc_bond lb (bit (pos1 an)) =? 0) = false).
+  { apply Z.eqb_neq. intros E.
+    assert (B : Z.testbit (enc_bond lb (bit (pos1 an))) (opos (lb_ord lb)) = true).
+    { unfold enc_bond. rewrite !Z.lor_spec, order_bit_eq, (bit_testbit (opos (lb_ord lb))), Z.eqb_refl by (pose proof (opos_range (lb_ord lb)); lia).
+      rewrite orb_true_r. reflexivity. }
+    rewrite E, Z.bits_0 in B. discriminate. }
+  rewrite NZ. reflexivity.
+Qed.
+
+(* ---- the documented identification: the encoders do not distinguish Lv, Ts and Og ---- *)
+Theorem lv_ts_og_identified :
+  elem_masks 117 = elem_masks 116 /\ elem_masks 118 = elem_masks 116 /\
+  forall a n, In n [117; 118] ->
+    let a' := mkLA n (la_iso a) (la_chg a) (la_rad a) (la_nb a) (la_hyb a) (la_h a) (la_het a) (la_rings a) in
+    let a0 := mkLA 116 (la_iso a) (la_chg a) (la_rad a) (la_nb a) (la_hyb a) (la_h a) (la_het a) (la_rings a) in
+    w1 (enc_atom a') = w1 (enc_atom a0) /\ w2 (enc_atom a') = w2 (enc_atom a0) /\ w4 (enc_atom a') = w4 (enc_atom a0).
+Proof.
+  split; [reflexivity|]. split; [reflexivity|].
+  intros a n [<-|[<-|[]]]; cbn zeta; unfold enc_atom; cbn [la_num la_hyb la_rings w1 w2 w4 Z.ltb Z.compare Pos.compare Pos.compare_cont];
+  repeat split; reflexivity.
+Qed.
+
+(* ---- what is false on the unchanged tree ---- *)
+(* AnyMetal mask accepts radon although AnyMetal.__eq__ rejects noble gases (GroupXVIII) *)
+Definition rn_atom : latom := mkLA 86 None 0 false 0 1 (Some 0) 0 [].
+Theorem anymetal_mask_refuted :
+  query_ok (QMetal [] []) = true /\ atom_ok rn_atom = true /\
+  match_atom (QMetal [] []) rn_atom = Ok false /\
+  mask_match_first (enc_qatom (QMetal [] []) None) (enc_atom rn_atom) = true.
+Proof. vm_compute. repeat split; reflexivity. Qed.
+
+(* implicit_hydrogens = None (valence error) is encoded like 0: a query asking for h0 accepts it, __eq__ does not *)
+Definition noh_atom : latom := mkLA 6 None 0 false 5 1 None 0 [].
+Definition h0_query : qatom := QElem 6 None (mkQX 0 false [] [] [0] [] [] false).
+Theorem hydrogens_none_refuted :
+  query_ok h0_query = true /\ match_atom h0_query noh_atom = Ok false /\
+  mask_match_first (enc_qatom h0_query None) (enc_atom noh_atom) = true.
+Proof. vm_compute. repeat split; reflexivity. Qed.
+
+(* the setter accepts implicit_hydrogens up to 14 but the field has 5 bits: h = 5..13 alias the charge bits *)
+Definition c4_atom : latom := mkLA 6 None (-4) false 0 1 (Some 0) 0 [].
+Definition h05_query : qatom := QElem 6 None (mkQX 0 false [] [] [0; 5] [] [] false).
+Theorem hydrogens_over_4_refuted :
+  atom_ok c4_atom = true /\ match_atom h05_query c4_atom = Ok false /\
+  mask_match_first (enc_qatom h05_query None) (enc_atom c4_atom) = true.
+Proof. vm_compute. repeat split; reflexivity. Qed.
+
+(* non-vacuity: a concrete instance inside the hypotheses on which both sides are true *)
+Theorem mask_match_example :
+  let q := QElem 6 (Some 13) (mkQX 0 false [2; 3] [1] [1; 2] [0] [5; 6] false) in
+  let a := mkLA 6 (Some 13) 0 false 3 1 (Some 1) 0 [6] in
+  query_ok q = true /\ atom_ok a = true /\ elem_hyp q (la_num a) /\
+  match_atom q a = Ok true /\ mask_match_first (enc_qatom q None) (enc_atom a) = true.
+Proof. cbn zeta. repeat split; try (vm_compute; reflexivity); cbn; lia. Qed.
